@@ -148,7 +148,7 @@ def check_ladder(case, ctx):
         ctx.count("homogeneity_rungs_checked")
         if t in FINE and conflict and name in ("UPGrad", "DualProj", "CAGrad"):
             ctx.count("w_fine_rung_above_norm_eps_with_conflict")
-        if not d <= E.tau(name, dname) * scale0:
+        if not d <= E.tau(name, dname, desc, J) * scale0:
             vio = ("not_positively_homogeneous", {"scale": t, "A(tJ)/t": (out / t).tolist(), "A(J)": base.tolist(), "error_over_scale": d / scale0,
                                                   "output_is_zero": bool((out == 0).all()), "base_is_zero": bool((base == 0).all())})
             break
